@@ -213,9 +213,13 @@ REG["C11"] = dict(
 REG["C12"] = dict(
     cbmc_args=MEMCMP,
     harnesses={
-        "c12_apply_acl_filter_and_rank": H(module="acl", replay="solver-only", enc=["Memvid::apply_acl_to_search_hits", "validate_enforce_acl_context", "AclFilterStats::record", "Memvid::frame_by_id"],
+        "c12_apply_acl_filter_and_rank": H("experimental", module="acl", replay="solver-only", enc=["Memvid::apply_acl_to_search_hits", "validate_enforce_acl_context", "AclFilterStats::record", "Memvid::frame_by_id"],
                                            sym="3 hits naming frames 0..2 or an unknown frame; per-frame allow/deny verdict (arbitrary); mode Enforce/Audit; context present/absent; tenant present/absent/unusable",
                                            bound="3 hits, 3 frames; evaluate_acl_metadata and normalize_acl_context replaced by arbitrary verdicts"),
+        "c12_decision_tenant_and_visibility": H(module="acl", replay="solver-only", enc=["evaluate_acl_metadata"], sym="parse success, frame tenant, caller tenant, visibility, caller has a subject id or not",
+                               bound="empty role/group/principal sets on both sides (no string hashing); parse_acl_metadata replaced by that parse result"),
+        "c12_decision_tenant_and_visibility": H(module="acl", replay="solver-only", enc=["evaluate_acl_metadata"], sym="parse success, frame tenant, caller tenant, visibility, caller has a subject id or not",
+                               bound="empty role/group/principal sets on both sides (no string hashing); parse_acl_metadata replaced by that parse result"),
         "c12_decision_cross_namespace": H("experimental", module="acl", replay="solver-only", enc=["evaluate_acl_metadata"], sym="parse success, frame tenant, caller tenant, visibility",
                                bound="the frame allows group 'r' and role 'g', the caller has role 'r' and group 'g' (same words in the other namespace): must be denied unless public"),
         "c12_decision_no_match": H("experimental", module="acl", replay="solver-only", enc=["evaluate_acl_metadata"], sym="parse success, frame tenant, caller tenant, visibility (public/restricted)",
@@ -487,3 +491,9 @@ REG["C31"] = dict(
     assumptions=["memchr::memrchr replaced by its functional specification (the real one dispatches through a cpuid-selected function pointer)", "CommitFooter::hash_matches replaced by the weak hash"],
     out=["buffers longer than 60 bytes"],
 )
+
+
+del REG["C31"]
+NOT_APPLICABLE["C31"] = ("find_last_valid_footer calls memchr::memrchr, which on x86_64 dispatches through a cpuid-selected function pointer (inline asm): Kani reports the stub memchr::memrchr -> spec as applied, "
+                         "but the inline asm stays reachable ('TerminatorKind::InlineAsm is not currently supported', harness c31_footer_scan_60, kept as experimental in harness/footer.rs); forcing memchr's "
+                         "SSE2 path instead did not finish symex in 400 s on 64 symbolic bytes (design-phase probe). The function cannot be executed symbolically with the tools in this image.")
